@@ -673,6 +673,31 @@ def seed_field_coverage(ck, prog):
         ck.ob("E3.seed", f"seed-whole:{adt.split('::')[-1]}", not cut,
               f"{adt.split('::')[-1]}::to_elements iterates over the whole of every field it encodes (a truncated iteration leaves the tail "
               "of a field out of the coin seed)", loc=f.loc(), detail=None if not cut else {"adaptors": cut})
+        # ... injectively: a variable-length byte field cut into zero-padded chunks must contribute its length as well (otherwise values
+        # that differ only in trailing zero bytes give the same elements)
+        from ..flow import flow as _flow
+        gfl = _flow(f)
+        for b, t in f.calls():
+            cn = callee_name(t) or ""
+            if getattr(ck, "prop", "") == "C01":
+                break     # injectivity of the seed encoding is a binding matter (C02/C03/C04), not a condition of completeness
+            if not cn.endswith(("slice::chunks", "slice::chunks_exact")) or not t["args"]:
+                continue
+            w = gfl.walk(ops=t["args"][:1], at=(b, T), through=lambda tt: (callee_name(tt) or "").endswith(("Deref::deref", "Vec::as_slice", "AsRef::as_ref")))
+            flds = sorted({n[2] for n in w if n[0] == "f" and n[1] == adt})
+            for fld in flds:
+                has_len = False
+                for pb, pt in f.calls():
+                    if (callee_name(pt) or "").endswith("Vec::push") and len(pt["args"]) > 1:
+                        pw = gfl.walk(ops=[pt["args"][1]], at=(pb, T))
+                        lens = [n for n in pw if n[0] == "c" and (callee_name(f.term(n[1])) or "").endswith(("Vec::len", "slice::len"))]
+                        for n in lens:
+                            lw = gfl.walk(ops=f.term(n[1])["args"][:1], at=(n[1], T), through=lambda tt: (callee_name(tt) or "").endswith(("Deref::deref",)))
+                            if any(x[0] == "f" and x[1] == adt and x[2] == fld for x in lw):
+                                has_len = True
+                ck.ob("E3.seed", f"seed-length:{adt.split('::')[-1]}.{fld}", has_len,
+                      f"{adt.split('::')[-1]}::to_elements encodes the LENGTH of the variable-length field `{fld}` that it cuts into zero-padded chunks "
+                      "(without it, values differing only in trailing zero bytes seed the coin identically)", loc=f.loc(b, T))
         for fld in fields:
             ck.ob("E3.seed", f"seed-field:{adt.split('::')[-1]}.{fld}", fld in read,
                   f"{adt.split('::')[-1]}::to_elements encodes field `{fld}` into the coin seed "
